@@ -141,11 +141,13 @@ def random_case(ctx, rng, part):
         spec = np.zeros((nk, nth), dtype=np.float32)
         for _ in range(int(rng.integers(1, 4))):
             spec[rng.integers(nk), rng.integers(nth)] = rng.integers(1, 5)
-    spec = np.ascontiguousarray(spec)
+    # energy level: exact powers of two down to ranges of 1e-8 (the routine's own "constant spectrum" floor is 1e-9)
+    lvl = int(rng.choice([0, 0, 0, 0, -16, -22, -26]))
+    spec = np.ascontiguousarray((spec.astype(np.float64) * 2.0 ** lvl).astype(np.float32))
     nk, nth = spec.shape
     szc = "tiny" if nk * nth <= 16 else ("small" if nk * nth <= 144 else "large")
-    key = "rnd|%s|%s|nk%s|nth%s|ihmax=%d" % (kind, szc, "1" if nk == 1 else ("2" if nk == 2 else "n"),
-                                               "1" if nth == 1 else ("2" if nth == 2 else "n"), ihmax)
+    key = "rnd|%s|%s|nk%s|nth%s|ihmax=%d|level=2^%d" % (kind, szc, "1" if nk == 1 else ("2" if nk == 2 else "n"),
+                                               "1" if nth == 1 else ("2" if nth == 2 else "n"), ihmax, lvl)
     lv, near = W.levels(spec, ihmax)
     lab = np.asarray(part(spec, ihmax))
     if lv is None:
